@@ -2,7 +2,7 @@
 deadline / TTL travels or is dropped as prescribed, X4 index in step."""
 import re
 from facts import callee, op_local, op_place, op_is_const
-import cfg, shared, prov
+import cfg, shared, prov, boolpath
 from shared import ENGINE, SHARD_MAP
 
 LOOKUP = re.compile(SHARD_MAP + r"(get|get_mut|contains_key|entry|remove|iter|iter_mut|keys|values|values_mut|get_key_value|remove_entry|len|is_empty)\b")
@@ -199,6 +199,85 @@ def rule_x3(ctx, R):
             R.finding(fn, desc + ":stored-value-origin",
                       "value inserted into the key space is neither a freshly constructed StoredValue nor the StoredValue removed from the old key (origins: %s): TTL would not be dropped on overwrite / would not travel on rename" % calls, b.loc(i))
     R.floor("shard_map_inserts", ni)
+
+
+# commands that replace the whole value (and with it the TTL) or only remove / retime the key; every
+# other writing command of the catalogue modifies the value in place and must keep the TTL
+WHOLE_VALUE = {"SET", "MSET", "GETSET", "SETNX", "SETEX", "PSETEX", "RENAME", "RENAMENX", "FLUSHDB", "FLUSHALL",
+               "DEL", "EXPIRE", "PEXPIRE", "PERSIST"}
+MAP_LOOKUP = re.compile(SHARD_MAP + r"(get|get_mut|get_key_value|remove|remove_entry)\b")
+
+
+class AbsentSpec(boolpath.Spec):
+    """evidence: the key has no live entry (lookup returned None, contains_key false, entry expired)"""
+
+    def _from_lookup(s, b, o):
+        if op_is_const(o):
+            return False
+        pl = op_place(o)
+        if "Option<" not in b.locals[pl["l"]]:
+            return False
+        P = prov.origins(b, pl["l"], stop_calls=re.compile(SHARD_MAP))
+        return any(r[0] == "call" and MAP_LOOKUP.search(r[1]) for r in P.roots)
+
+    def call(s, b, bbi, t):
+        f = t["f"] or ""
+        if re.search(SHARD_MAP + r"contains_key\b", f):
+            return boolpath.N
+        if IS_EXPIRED.match(callee(t)):
+            return boolpath.A
+        m = boolpath.OPTION_TEST.match(f)
+        if m and t["a"] and s._from_lookup(b, t["a"][0]):
+            return {"is_none": boolpath.A, "is_some": boolpath.N}.get(m.group(1))
+        return None
+
+    def edges(s, b, bbi, t):
+        return boolpath.none_edge(b, bbi, t, s._from_lookup)
+
+
+def rule_keep(ctx, R):
+    """`the TTL survives in-place modifications`: in the engine methods behind the commands that
+    modify a value in place, a freshly constructed StoredValue (fresh metadata = no TTL) is put
+    into the key space only where the key has no live entry"""
+    import rules_cmd
+    arms = rules_cmd.dispatch_arms(ctx)
+    eng = shared.engine_bodies(ctx.prog)
+    inplace = sorted(n for n, (eff, _) in rules_cmd.SPEC.items() if eff == "W" and n not in WHOLE_VALUE)
+    methods = {}
+    for n in inplace:
+        a = arms.get(n)
+        if a is None:
+            continue
+        for fn in a["reach"]:
+            if fn in eng:
+                methods.setdefault(fn, []).append(n)
+    stop = re.compile(SHARD_MAP + r"|^storage::value::StoredValue::(new|with_expiration)")
+    ns = 0
+    for fn in sorted(methods):
+        b = eng[fn]
+        sites = []
+        for i, t in b.calls():
+            if re.search(SHARD_MAP + r"insert\b", t["f"] or "") and len(t["a"]) >= 3:
+                P = prov.operand_origins(b, t["a"][2], stop_calls=stop)
+                if any(r[0] == "call" and r[1].startswith("storage::value::StoredValue::") for r in P.roots) or \
+                   any(r[0] == "agg" and r[1].startswith("storage::value::StoredValue") for r in P.roots):
+                    sites.append(i)
+        if not sites:
+            R.trivial(); continue
+        try:
+            ex = boolpath.explore(b, AbsentSpec())
+        except boolpath.TooManyStates as e:
+            R.broken.append(str(e)); continue
+        for k, i in enumerate(sites):
+            ns += 1
+            ok = i not in ex.reached
+            R.inst(fn, "fresh-insert#%d" % k, {"method": fn[len(ENGINE):], "commands": methods[fn][:4], "at": b.loc(i), "only_when_key_absent_or_expired": ok})
+            if not ok:
+                R.finding(fn, "fresh-insert#%d:over-live-entry" % k,
+                          "%s (reached from %s) stores a freshly constructed StoredValue (line %d) on a path on which the key can hold a live entry: the entry's TTL is dropped by what the property calls an in-place modification"
+                          % (fn.split("::")[-1], "/".join(methods[fn][:4]), b.bb_line(i)), b.loc(i),
+                          ["bb%d line %d" % (x, b.bb_line(x)) for x in ex.witness(b, i)][-10:])
+    R.floor("fresh_insert_sites", ns)
 
 
 def rule_x4(ctx, R):
